@@ -237,6 +237,9 @@ class VFSZip(VFS_Real):
     def iswritable(self, selector: str) -> bool:
         return False
 
+    def isrealfs(self) -> bool:
+        return False
+
     def unlink(self, selector: str):
         raise NotImplementedError("VFSZip cannot unlink files.")
 
